@@ -4,6 +4,7 @@ import (
 	"fmt"
 	"go/constant"
 	"go/types"
+	"sort"
 	"strings"
 
 	"golang.org/x/tools/go/ssa"
@@ -40,6 +41,12 @@ func eventConstNames(p *Prog) map[int64]string {
 
 // triggerEvent: `in` is a call of EventScope.Trigger with a constant event id.
 func triggerEvent(in ssa.Instruction, names map[int64]string) string {
+	return triggerEventB(in, names, nil)
+}
+
+// triggerEventB: as triggerEvent, with the parameters of the enclosing private
+// helper bound to the (constant) arguments of the call being expanded.
+func triggerEventB(in ssa.Instruction, names map[int64]string, bind map[*ssa.Parameter]ssa.Value) string {
 	ci := callInfo(in, nil, 0)
 	if ci == nil || ci.Kind != "call" {
 		return ""
@@ -57,8 +64,17 @@ func triggerEvent(in ssa.Instruction, names map[int64]string) string {
 	if mi, ok := a.(*ssa.MakeInterface); ok {
 		a = mi.X
 	}
+	if p, ok := a.(*ssa.Parameter); ok && bind != nil && bind[p] != nil {
+		a = bind[p]
+		if mi, ok := a.(*ssa.MakeInterface); ok {
+			a = mi.X
+		}
+	}
 	if k, ok := constInt(a); ok {
 		if n, ok := names[k]; ok {
+			if n == "Error" {
+				return "" // the error event is not part of the close protocol
+			}
 			return n
 		}
 		return fmt.Sprintf("event#%d", k)
@@ -71,17 +87,36 @@ func eventWords(f *ssa.Function, classify func(in ssa.Instruction) string) ([]st
 	words := []string{""}
 	index := map[string]int{"": 0}
 	overflow := false
+	// a state is a set of words (joined by "\n"): a helper with several words forks the set
 	exits := RunPaths(f, nil, 0, func(st int, in ssa.Instruction, deferred bool) int {
 		ev := classify(in)
 		if ev == "" {
 			return st
 		}
-		w := words[st]
-		if w != "" {
-			w += " "
+		alts := []string{ev}
+		if strings.HasPrefix(ev, "(") && strings.HasSuffix(ev, ")") && strings.Contains(ev, " | ") {
+			alts = strings.Split(ev[1:len(ev)-1], " | ")
 		}
-		w += ev
-		if len(w) > 600 {
+		set := map[string]bool{}
+		for _, w := range strings.Split(words[st], "\n") {
+			for _, a := range alts {
+				nw := w
+				if a != "" {
+					if nw != "" {
+						nw += " "
+					}
+					nw += a
+				}
+				set[nw] = true
+			}
+		}
+		var ws []string
+		for w := range set {
+			ws = append(ws, w)
+		}
+		sort.Strings(ws)
+		w := strings.Join(ws, "\n")
+		if len(w) > 4000 {
 			overflow = true
 			return -1
 		}
@@ -95,9 +130,11 @@ func eventWords(f *ssa.Function, classify func(in ssa.Instruction) string) ([]st
 	seen := map[string]bool{}
 	var out []string
 	for _, e := range exits {
-		if !seen[words[e.State]] {
-			seen[words[e.State]] = true
-			out = append(out, words[e.State])
+		for _, w := range strings.Split(words[e.State], "\n") {
+			if !seen[w] {
+				seen[w] = true
+				out = append(out, w)
+			}
 		}
 	}
 	return out, overflow
@@ -130,18 +167,26 @@ func discoverScopeRoles(c *Ctx) *scopeRoles {
 			r.parent = f.Name()
 		}
 	}
-	// closed: the bool field stored true in Close
-	eachInstr(closeF, func(_ *ssa.BasicBlock, _ int, in ssa.Instruction) {
-		if s, ok := in.(*ssa.Store); ok {
-			if b, isB := constBool(s.Val); isB && b {
-				if fa, ok := s.Addr.(*ssa.FieldAddr); ok && fa.X == ssa.Value(closeF.Params[0]) {
-					n := fieldName(fa)
-					r.closed = n[strings.LastIndex(n, ".")+1:]
+	// closed: the bool field stored true in Close (or in a private helper of it)
+	for _, g := range append([]*ssa.Function{closeF}, reachableSamePkg(closeF, 2)...) {
+		if g != closeF && (g.Signature.Recv() == nil || (g.Object() != nil && g.Object().Exported())) {
+			continue
+		}
+		eachInstr(g, func(_ *ssa.BasicBlock, _ int, in ssa.Instruction) {
+			if s, ok := in.(*ssa.Store); ok {
+				if b, isB := constBool(s.Val); isB && b {
+					if fa, ok := s.Addr.(*ssa.FieldAddr); ok && len(g.Params) > 0 && fa.X == ssa.Value(g.Params[0]) && strings.HasPrefix(fieldName(fa), "scope.Scope.") && r.closed == "" {
+						n := fieldName(fa)
+						r.closed = n[strings.LastIndex(n, ".")+1:]
+					}
 				}
 			}
-		}
-	})
+		})
+	}
 	names := eventConstNames(c.P)
+	deepEv := expandHelpers(names, func(in ssa.Instruction, bind map[*ssa.Parameter]ssa.Value) string {
+		return triggerEventB(in, names, bind)
+	})
 	for _, ci := range Calls(closeF) {
 		g := ci.Static
 		if g == nil || g.Pkg != closeF.Pkg || g.Signature.Recv() == nil || (g.Object() != nil && g.Object().Exported()) {
@@ -152,7 +197,7 @@ func discoverScopeRoles(c *Ctx) *scopeRoles {
 			if _, ok := in.(*ssa.Panic); ok {
 				hasPanic = true
 			}
-			if triggerEvent(in, names) == "AfterClose" {
+			if strings.Contains(deepEv(in), "AfterClose") {
 				hasAfterClose = true
 			}
 		})
@@ -201,8 +246,8 @@ func rulesC11(c *Ctx) {
 		c.Bad("anchor", "scope.(*Scope).Close/close/Wait/preventDoubleClosed, app.*Event", 0, "anchor not found; cannot certify")
 		return
 	}
-	classify := func(in ssa.Instruction) string {
-		if ev := triggerEvent(in, names); ev != "" {
+	classifyB := func(in ssa.Instruction, bind map[*ssa.Parameter]ssa.Value) string {
+		if ev := triggerEventB(in, names, bind); ev != "" {
 			return ev
 		}
 		if st, ok := in.(*ssa.Store); ok {
@@ -228,6 +273,7 @@ func rulesC11(c *Ctx) {
 		}
 		return ""
 	}
+	classify := expandHelpers(names, classifyB)
 
 	// ---- R1 event word -------------------------------------------------------
 	words, over := eventWords(closeF, classify)
@@ -280,12 +326,16 @@ func rulesC11(c *Ctx) {
 		c.Bad("R2", "commit/rollback selected by Wait", closeF.Pos(), "Close does not call Wait")
 	} else {
 		eachInstr(closeF, func(b *ssa.BasicBlock, _ int, in ssa.Instruction) {
-			ev := triggerEvent(in, names)
-			if ev == "" {
+			ev := classify(in)
+			if ev == "" || ev == "close()" {
 				return
 			}
 			isRb := strings.Contains(ev, "Rollback")
 			isCm := strings.Contains(ev, "Commit")
+			if isRb && isCm {
+				c.Bad("R2", "commit/rollback selected by Wait", in.Pos(), "a helper called from Close fires both triples ("+ev+"); cannot certify the selection")
+				return
+			}
 			if !isRb && !isCm {
 				return
 			}
@@ -299,7 +349,7 @@ func rulesC11(c *Ctx) {
 			}
 		})
 	}
-	c.Floor("R2", n2, 6)
+	c.Floor("R2", n2, 2)
 
 	// ---- R3 double close refused ----------------------------------------------------
 	le := NewLockEngine(c.P)
@@ -735,4 +785,54 @@ func ruleCloseWaitsChildRegisters(c *Ctx, rule string, waitF *ssa.Function) {
 	} else {
 		c.Bad(rule, "scope.NewChild", 0, "anchor not found")
 	}
+}
+
+// expandHelpers wraps a base classifier: a plain call of an unexported function
+// of the same package that the base classifier does not know is replaced by the
+// event word of its body (recursively, parameters bound to the call's arguments)
+// when all its paths have the same word.
+func expandHelpers(names map[int64]string, base func(in ssa.Instruction, bind map[*ssa.Parameter]ssa.Value) string) func(in ssa.Instruction) string {
+	var deep func(in ssa.Instruction, bind map[*ssa.Parameter]ssa.Value, depth int) string
+	deep = func(in ssa.Instruction, bind map[*ssa.Parameter]ssa.Value, depth int) string {
+		if ev := base(in, bind); ev != "" {
+			return ev
+		}
+		ci := callInfo(in, nil, 0)
+		if ci == nil || ci.Kind != "call" || ci.Static == nil || depth >= 3 {
+			return ""
+		}
+		g := ci.Static
+		if g.Blocks == nil || in.Parent() == nil || g.Pkg != in.Parent().Pkg || (g.Object() != nil && g.Object().Exported()) || g == in.Parent() {
+			return ""
+		}
+		nb := map[*ssa.Parameter]ssa.Value{}
+		for i, a := range ci.Common.Args {
+			if i < len(g.Params) {
+				v := a
+				if p, ok := a.(*ssa.Parameter); ok && bind != nil && bind[p] != nil {
+					v = bind[p]
+				}
+				nb[g.Params[i]] = v
+			}
+		}
+		words, over := eventWords(g, func(in2 ssa.Instruction) string { return deep(in2, nb, depth+1) })
+		if over || len(words) == 0 {
+			return ""
+		}
+		if len(words) == 1 {
+			return words[0]
+		}
+		nonEmpty := false
+		for _, w := range words {
+			if w != "" {
+				nonEmpty = true
+			}
+		}
+		if !nonEmpty {
+			return ""
+		}
+		sort.Strings(words)
+		return "(" + strings.Join(words, " | ") + ")"
+	}
+	return func(in ssa.Instruction) string { return deep(in, nil, 0) }
 }
